@@ -1124,6 +1124,25 @@ def run_rt(case, ctx):
             for jid in pre_ids:
                 if after.get(jid) != pre_files[jid]:
                     oracle.append("import modified the existing job %s" % jid)
+            if pre_ids and mkind == "dir" and os.path.isdir(target):
+                # a user-supplied copy function (documented: copytree=os.replace / shutil.move) that fails for a
+                # reason of its own - other file system, I/O error, disk full - before it looks at the destination:
+                # the jobs the project already holds stay as they are
+                import errno as _errno
+                for eno in (_errno.EXDEV, _errno.EIO, _errno.ENOSPC):
+                    def failing_copy(src_, dst_, _e=eno):
+                        raise OSError(_e, os.strerror(_e), src_)
+                    try:
+                        dst.import_from(origin, schema=schema_arg, copytree=failing_copy)
+                        r2 = "no error"
+                    except Exception as e:  # noqa: BLE001
+                        r2 = kind_of(e)
+                    after2 = workspace_dirs(signac.Project(dst.path))
+                    for jid in pre_ids:
+                        if after2.get(jid) != pre_files[jid]:
+                            oracle.append("import whose copy function failed with %s (%s) %s the existing job %s" % (
+                                _errno.errorcode[eno], r2, "removed" if jid not in after2 else "modified", jid))
+                    tags.append("failing-copytree=" + r2)
             if pre_ids:
                 if imp_exc is None or kind_of(imp_exc) != "DestinationExistsError":
                     oracle.append("import into a project that already holds %r: %s instead of DestinationExistsError" % (
